@@ -8,6 +8,7 @@ sound-and-complete oracle of `Props/Oracles.lean` (the Boehm identity for all in
 import NurbsVerif.Props.C15
 import NurbsVerif.Proofs.KV
 import Mathlib.Algebra.BigOperators.Intervals
+import NurbsVerif.Proofs.Boehm
 
 namespace NV
 open Finset
@@ -152,5 +153,90 @@ theorem C04_row_sum_one (U : List Rat) (p : Nat) (node : Rat) (s m n r : Nat)
           have h2 : ¬ (c + 1 = r ∧ s ≤ c + m) := by omega
           simp [c1, h1, h2]
       rw [sum_congr rfl e, sum_ite_eq_range n (r - 1) 1 (by omega)]
+
+theorem sum_ite_mul_range (n r : Nat) (v : Rat) (P : Nat → Rat) (hr : r < n) :
+    ∑ c ∈ range n, (if c = r then v else 0) * P c = v * P r := by
+  have : ∀ c ∈ range n, (if c = r then v else 0) * P c = if c = r then v * P c else 0 := by
+    intro c _; split <;> simp
+  rw [sum_congr rfl this, Finset.sum_ite_eq' (range n) r (fun c => v * P c)]
+  simp [hr]
+
+/-- **the rows of the single-insertion matrix are the Boehm map**: row `r` of `one_knot_insert_once` applied to the
+control values `P` is `α_r P_r + (1 − α_r) P_{r−1}` with the degree-`p` Boehm coefficient `α_r` -/
+theorem insOnce_row_is_boehm (U : List Rat) (p : Nat) (node : Rat) (s m n r : Nat) (P : Nat → Rat)
+    (hs : s < n) (hps : p ≤ s) (hm : m ≤ p) (hr : r ≤ n) :
+    ∑ c ∈ range n, insOnceEntry U p node s m r c * P c = boehm (nth U) s node p P r := by
+  unfold boehm alpha
+  by_cases hblend : s + 1 ≤ r + p ∧ r ≤ s
+  · have hr1 : 1 ≤ r := by omega
+    have e1 : ¬ r + p ≤ s := by omega
+    have e : ∀ c ∈ range n, insOnceEntry U p node s m r c * P c
+        = (if c = r then (node - nth U r) / (nth U (r + p) - nth U r) else 0) * P c
+          + (if c = r - 1 then 1 - (node - nth U r) / (nth U (r + p) - nth U r) else 0) * P c := by
+      intro c _
+      rw [insOnceEntry_blend U p node s m r c hblend]
+      by_cases c1 : c = r
+      · subst c1
+        have h1 : ¬ c = c - 1 := by omega
+        rw [if_pos rfl, if_pos rfl, if_neg h1]; ring
+      · by_cases c2 : c + 1 = r
+        · have h3 : c = r - 1 := by omega
+          rw [if_neg c1, if_pos c2, if_neg c1, if_pos h3]; ring
+        · have h3 : ¬ c = r - 1 := by omega
+          rw [if_neg c1, if_neg c2, if_neg c1, if_neg h3]; ring
+    rw [sum_congr rfl e, sum_add_distrib, sum_ite_mul_range n r _ P (by omega),
+      sum_ite_mul_range n (r - 1) _ P (by omega)]
+    have hp : prevP P r = P (r - 1) := by
+      have : r ≠ 0 := by omega
+      simp [prevP, this]
+    simp only [e1, hblend.2, if_true, if_false, hp]
+  · by_cases hlow : r + p ≤ s
+    · have e : ∀ c ∈ range n, insOnceEntry U p node s m r c * P c = (if c = r then 1 else 0) * P c := by
+        intro c _
+        unfold insOnceEntry
+        rw [if_neg hblend]
+        by_cases c1 : c = r
+        · simp [c1, hlow]
+        · have : ¬ (c + 1 = r ∧ s ≤ c + m) := by omega
+          simp [c1, this]
+      rw [sum_congr rfl e, sum_ite_mul_range n r 1 P (by omega)]
+      simp [hlow]
+    · have hr1 : s + 1 ≤ r := by omega
+      have e : ∀ c ∈ range n, insOnceEntry U p node s m r c * P c = (if c = r - 1 then 1 else 0) * P c := by
+        intro c _
+        unfold insOnceEntry
+        rw [if_neg hblend]
+        by_cases c1 : c = r - 1
+        · have h1 : ¬ (c = r ∧ r + p ≤ s) := by omega
+          have h2 : c + 1 = r ∧ s ≤ c + m := by omega
+          simp [c1, h1, h2]
+          omega
+        · have h1 : ¬ (c = r ∧ r + p ≤ s) := by omega
+          have h2 : ¬ (c + 1 = r ∧ s ≤ c + m) := by omega
+          simp [c1, h1, h2]
+      rw [sum_congr rfl e, sum_ite_mul_range n (r - 1) 1 P (by omega)]
+      have e2 : ¬ r ≤ s := by omega
+      have hp : prevP P r = P (r - 1) := by
+        have : r ≠ 0 := by omega
+        simp [prevP, this]
+      simp [hlow, e2, hp]
+
+/-- **C04 (Boehm: insertion never changes the curve).**  For *every* knot list that is monotone up to its last index,
+every degree `p`, every node `x` with `U[s] ≤ x < U[s+1]`, every coefficient sequence `P` and every parameter `u`:
+the value `Σ_i P_i N_{i,p}(u)` over the old knots, taken on the old span, equals the value over the new knots
+(`x` inserted behind position `s`) with the coefficients `M·P` of the single-insertion matrix, on every non-empty span
+`sh` of the new knots — for all multiplicity patterns (zero denominators are covered by the 0/0 := 0 convention). -/
+theorem C04_boehm_preserves (U : List Rat) (B p s m n : Nat) (x : Rat) (sh : Nat) (u : Rat) (P : Nat → Rat)
+    (hmono : MonoUpTo (nth U) B) (hsB : s + 1 ≤ B) (hlo : nth U s ≤ x) (hhi : x < nth U (s + 1))
+    (hne : insKnots (nth U) s x sh < insKnots (nth U) s x (sh + 1))
+    (hp : p ≤ oldSpan s sh) (hB1 : oldSpan s sh + p + 1 ≤ B) (hB2 : sh + p ≤ B)
+    (hsn : s < n) (hps : p ≤ s) (hm : m ≤ p) (hshn : sh ≤ n) :
+    spanSum (nth U) (oldSpan s sh) p u P
+      = spanSum (insKnots (nth U) s x) sh p u
+          (fun r => ∑ c ∈ range n, insOnceEntry U p x s m r c * P c) := by
+  rw [boehm_identity (nth U) B s x ⟨hmono, hsB, hlo, hhi⟩ sh u hne p hp hB1 hB2 P]
+  apply spanSum_congr
+  intro r _ hr2
+  exact (insOnce_row_is_boehm U p x s m n r P hsn hps hm (by omega)).symm
 
 end NV
